@@ -554,7 +554,7 @@ class IdentityMapper(Mapper):
 
     def map_polynomial(self, expr, *args, **kwargs):
         base = self.rec(expr.base, *args, **kwargs)
-        data = ((exp, self.rec(coeff, *args, **kwargs))
+        data = tuple((exp, self.rec(coeff, *args, **kwargs))
                                   for exp, coeff in expr.data)
         if base is expr.base and all(
                 t[1] is orig_t[1] for t, orig_t in zip(data, expr.data)):
